@@ -171,9 +171,9 @@ access(all) fun main(): [Int] { var acc: [Int] = []; let add = fun (_ x: Int) { 
 	add(item("script-bls", []string{"script", "bls"},
 		script(`access(all) fun main(): [Int] { let k = `+blsKeyExpr+`
  let pop = k.verifyPoP([1, 2, 3])
- let sig = BLS.aggregateSignatures([[1, 2], [3]])!
- let agg = BLS.aggregatePublicKeys([k, k])!
- return [pop ? 1 : 0, sig.length, agg.publicKey.length] }`)))
+ let sig = BLS.aggregateSignatures([[1, 2], [3]])
+ let agg = BLS.aggregatePublicKeys([k, k])
+ return [pop ? 1 : 0, sig?.length ?? -1, agg?.publicKey?.length ?? -1] }`)))
 	add(item("script-account-info", []string{"script", "account", "balance", "storage-info"},
 		script(`access(all) fun main(): [UFix64] { let a = getAccount(0x1); return [a.balance, a.availableBalance, UFix64(a.storage.used), UFix64(a.storage.capacity)] }`)))
 
@@ -233,10 +233,17 @@ transaction { prepare(a: auth(Storage) &Account) { let b = a.storage.borrow<&Cou
 		tx(`transaction { prepare(a: auth(Contracts) &Account) { let r = a.contracts.remove(name: "Tiny"); log(r != nil); log(a.contracts.names); log(a.contracts.remove(name: "Tiny") == nil) } }`, 1)))
 	add(item("contract-tryupdate", []string{"tx", "contracts-api", "tryupdate"},
 		dep(1, "Counter", contractCounter),
+		tx(fmt.Sprintf(`transaction { prepare(a: auth(Contracts, Storage) &Account) {
+ a.storage.save(1, to: /storage/beforeTry)
+ log("tryUpdate:begin"); let r = a.contracts.tryUpdate(name: "Counter", code: %q.decodeHex()); log("tryUpdate:end")
+ log("tryUpdate:deployed=".concat(r.deployedContract != nil ? "true" : "false"))
+ a.storage.save(2, to: /storage/afterTry) } }`, hexs(contractCounterV2)), 1),
 		tx(fmt.Sprintf(`transaction { prepare(a: auth(Contracts) &Account) {
- let ok = a.contracts.tryUpdate(name: "Counter", code: %q.decodeHex()); log(ok.deployedContract != nil)
- let bad = a.contracts.tryUpdate(name: "Counter", code: %q.decodeHex()); log(bad.deployedContract == nil) } }`,
-			hexs(contractCounterV2), hexs(`access(all) contract Counter { access(all) var total: String; init() { self.total = "" } }`)), 1)))
+ log("tryUpdate:begin"); let r = a.contracts.tryUpdate(name: "Counter", code: %q.decodeHex()); log("tryUpdate:end")
+ log("tryUpdate:deployed=".concat(r.deployedContract != nil ? "true" : "false")) } }`,
+			hexs(`access(all) contract Counter { access(all) var total: String; init() { self.total = "" } }`)), 1),
+		script(`import Counter from 0x1
+access(all) fun main(): String { return Counter.extra() }`)))
 	add(item("contract-init-args", []string{"tx", "contracts-api", "event"},
 		tx(fmt.Sprintf(`transaction { prepare(a: auth(Contracts, Storage) &Account) {
  a.contracts.add(name: "Init", code: %q.decodeHex(), 7, "seven") } }`,
